@@ -357,10 +357,30 @@ Proof.
     destruct requeue; [apply K_requeue_one|rewrite chan_reject_drop_eq; apply K_ack_one]; auto; rewrite EU; auto.
 Qed.
 
+(* a channel record rewritten without touching its deliveries; the message being assembled may be dropped (it has no key) *)
+Lemma K_upd_chan_cur s c h f :
+  (forall ch, ch_unacked (f ch) = ch_unacked ch) -> (forall ch, le_ms (cur_l (f ch)) (cur_l ch)) -> KI s -> KI (upd_chan s c h f).
+Proof.
+  intros Hu Hc K. unfold upd_chan. destruct (get_chan s c h) as [ch|] eqn:Hg; [|exact K].
+  destruct (next_set_chan s c h (f ch)) as (N1 & N2 & A1 & A2 & Q).
+  destruct (XS_set_chan s c h (f ch)) as (X1 & X2 & X3).
+  assert (Hheld : forall qid, held (set_chan s c h (f ch)) qid = held s qid).
+  { intros qid. unfold held. f_equal.
+    - unfold ready_of. rewrite Q. reflexivity.
+    - rewrite !unacked_of_all_ch. apply (all_ch_set_chan_keep _ s c h ch (f ch) Hg). unfold uq. rewrite Hu. reflexivity. }
+  assert (Hnm : nmv (set_chan s c h (f ch)) = nmv s) by (apply nmv_same_queues; exact Q).
+  apply (K_keep s _ K); auto.
+  - eapply HI_HB; [apply K|]. apply (HB_set_chan s c h ch); auto. intros qid. unfold uq. rewrite Hu. apply le_ms_refl.
+  - intros k. apply eff_same; auto.
+  - intros u qn qid Hin Hh _. rewrite Hheld, Hnm. auto.
+  - unfold uqp. rewrite !all_unacked_all_ch, (all_ch_set_chan_keep _ s c h ch (f ch) Hg) by apply Hu. apply incl_refl.
+  - rewrite Hnm. auto.
+Qed.
+
 Lemma K_channel_close cfg s c h : CI s -> KI s -> QI s -> KI (channel_close cfg s c h).
 Proof.
   intros Hci K Q. unfold channel_close. destruct (get_chan s c h) as [ch|] eqn:Ech; [|exact K].
-  eapply K_FX; [|apply FR_upd_chan; reflexivity|apply XS_upd_chan].
+  apply K_upd_chan_cur; [reflexivity|intros; apply le_ms_nil|].
   set (s2 := upd_chan (fold_left (fun s cm => consumer_stop s c h (c_tag cm)) (ch_consumers ch) s) c h (fun ch => ch <| ch_consumers := [] |>)).
   assert (F2 : FR s s2).
   { subst s2. eapply FR_trans; [|apply FR_upd_chan; reflexivity]. apply FR_fold. intros; apply FR_consumer_stop. }
